@@ -545,3 +545,7 @@ where
     }
     Some(n)
 }
+
+#[cfg(kani)]
+#[path = "/verif/kani/parquet/column/writer/encoder.rs"]
+mod verif_kani;
